@@ -323,6 +323,9 @@ def _alive(pid):
 
 
 def execute(case):
+    if "token" in case:
+        from vfw import live
+        return live.execute_live(case, ('C08:live',))
     if "content" in case:
         return execute_pidfile(case)
     return execute_sim(case)
@@ -438,6 +441,8 @@ def plan(tier, seed):
               for i in range(8)]
     specs += [{"kind": "pidfile", "seed": seed * 100 + 90,
                "n": 400 if tier == 'quick' else 5000}]
+    specs += [{"kind": "live", "seed": seed * 100 + 70 + i,
+               "n": 3 if tier == 'quick' else 40} for i in range(3)]
     return specs
 
 
@@ -447,6 +452,15 @@ def run_shard(spec):
         found = _enumerate(spec, stats)
         res = stats.as_dict()
         res["violations"] = found
+        return res
+    if spec["kind"] == 'live':
+        from vfw import live
+        found = hyp_search(live.strategy(), execute, stats, spec["seed"],
+                           spec["n"], known=spec["known"], max_rounds=2,
+                           shrink=False)
+        res = stats.as_dict()
+        res["violations"] = found
+        res["inconclusive"] = stats.counters.get('live-inconclusive', 0)
         return res
     strat = _sim_strategy() if spec["kind"] == 'sim' else _pid_strategy()
     try:
